@@ -5,6 +5,7 @@ import TsVerif.C02.BalanceSumm
 import TsVerif.C02.WidthProps
 import TsVerif.C02.LexYields
 import TsVerif.C02.ModelDriver
+import TsVerif.C02.Round11
 #print axioms TsVerif.C02.summarize_padding_size
 #print axioms TsVerif.C02.spans_nested
 #print axioms TsVerif.C02.siblings_ordered
@@ -61,3 +62,17 @@ import TsVerif.C02.ModelDriver
 #print axioms TsVerif.C02.ModelDriver.model_tree_tiles
 #print axioms TsVerif.C02.ModelDriver.model_halts
 #print axioms TsVerif.C02.ModelDriver.model_parse_halted
+#print axioms TsVerif.C02.newNode_sized
+#print axioms TsVerif.C02.newNode_yields
+#print axioms TsVerif.C02.reduce_tiles
+#print axioms TsVerif.C02.step_tiles
+#print axioms TsVerif.C02.run_tiles
+#print axioms TsVerif.C02.run_consumed
+#print axioms TsVerif.C02.run_rowcol
+#print axioms TsVerif.C02.run_root_rowcol
+#print axioms TsVerif.C02.shiftLexed_ok
+#print axioms TsVerif.C02.newLeaf_shift_ok
+#print axioms TsVerif.C02.newMissingLeaf_shift_ok
+#print axioms TsVerif.C02.newErrorLeaf_shift_ok
+#print axioms TsVerif.C02.accept_tiles
+#print axioms TsVerif.C02.parse_tiles
